@@ -250,13 +250,22 @@ def run_isolated(fn, args=(), timeout=600.0):
     import signal
     import traceback
 
+    import shutil
+    import tempfile
+
     r, w = os.pipe()
     sys.stdout.flush() if hasattr(sys.stdout, "flush") and sys.stdout is not None else None
+    # the run's "disk": an empty private directory that TMPDIR / HOME / XDG_CACHE_HOME point to, so that anything the
+    # code under test keeps on disk (caches, lock files) starts empty in every run and in every replay
+    disk = tempfile.mkdtemp(prefix="pyab-run-")
     pid = os.fork()
     if pid == 0:
         rc = 0
         try:
             os.close(r)
+            for var in ("TMPDIR", "TEMP", "TMP", "HOME", "XDG_CACHE_HOME", "XDG_CONFIG_HOME", "XDG_DATA_HOME"):
+                os.environ[var] = disk
+            tempfile.tempdir = None
             res = fn(*args)
             data = json.dumps(res, default=repr).encode()
             while data:
@@ -286,9 +295,13 @@ def run_isolated(fn, args=(), timeout=600.0):
                 if not c:
                     break
                 chunks.append(c)
+    except BaseException:
+        shutil.rmtree(disk, ignore_errors=True)
+        raise
     finally:
         os.close(r)
     _, status = os.waitpid(pid, 0)
+    shutil.rmtree(disk, ignore_errors=True)
     if status != 0:
         raise HarnessError(f"isolated run died with status {status}")
     return json.loads(b"".join(chunks))
